@@ -1,3 +1,4 @@
+CONSTANTS Tier = "quick"
 SPECIFICATION Spec
-INVARIANTS StepwiseAgrees RoundTrip EmitCase
+INVARIANTS EmitCase
 CHECK_DEADLOCK FALSE
